@@ -323,6 +323,7 @@ AUX = {
     "n1": ("n1", "!", ("str", "b")),
     "hn": ("hn", "", ("seq", ("ref", "c1"), ("ref", "n1"))),
     "sc": ("sc", "_", ("choice", ("str", "b"), ("ref", "x"))),
+    "xy": ("xy", "", ("seq", ("ref", "x"), ("str", "b"))),
     "sl": ("sl", "_", ("choice", ("str", "a"), ("str", "b"))),
     "sf": ("sf", "_", ("seq", ("ref", "x"), ("str", "!"))),
     "sg": ("sg", "_", ("seq", ("ref", "x"), ("ref", "sf"))),
@@ -393,6 +394,8 @@ KINDS: dict[str, tuple[Expr, bool]] = {
     "starpf": (("seq", ("star", ("ref", "pf")), ("peekall",)), False),
     "notpf": (("seq", ("not", ("ref", "pf")), ("peekall",)), False),
     "tagsilent": (("tag", "tg", ("ref", "s")), False),
+    "tagrefnested": (("tag", "tg", ("ref", "xy")), False),
+    "tagrefnested2": (("seq", ("tag", "tg", ("ref", "xy")), ("opt", ("tag", "tg", ("ref", "x")))), False),
     "tagplus": (("raw", "#tg = (x)+", False, ("x",), ("tag", "plus")), False),
     "tagstar": (("raw", "#tg = (x ~ \"b\"?)*", True, ("x",), ("tag", "star")), False),
     "tagref": (("tag", "tg", ("ref", "x")), False),
@@ -475,6 +478,7 @@ TRIVIA: dict[str, list[Rule]] = {
     "cmn": [CMN],
     "both": [WS2, CM],
     "bothn": [WSN, CMN],
+    "bothn1": [WSN, ("COMMENT", "", ("str", "#"))],
 }
 
 
